@@ -84,7 +84,11 @@ type regime struct {
 func regimeOf(p *Plan) regime {
 	r := regime{mode: p.Mode, malformed: p.TNC.Malformed()}
 	if p.Mode == "serial" {
-		r.split = p.TNC.Has(func(e ardoptnc.Ev) bool { return len(e.Cuts) > 0 })
+		// A frame reaches the host in pieces when the TNC writes it in pieces,
+		// or when it cannot be taken over in whole buffers: a serial frame of
+		// k*4096+1 bytes leaves its last byte behind when it is read through
+		// 4096-byte buffers (Go's bufio default), however it was written.
+		r.split = p.TNC.Has(func(e ardoptnc.Ev) bool { return len(e.Cuts) > 0 || serialFrameLen(e)%4096 == 1 })
 		r.badcrc = p.TNC.Has(func(e ardoptnc.Ev) bool { return e.Bad > 0 && e.Kind != "raw" && e.Kind != "dframe" })
 	}
 	r.maxframe = p.TNC.Has(func(e ardoptnc.Ev) bool { return e.Kind == "arq" && e.Arg == "" && e.Size >= 65531 })
@@ -135,4 +139,26 @@ func (r regime) deathTag() string {
 		return "malformed-input"
 	}
 	return "legal-input-" + r.tag()
+}
+
+// serialFrameLen is the length of the serial frame of a data event ("d:" +
+// count + type + payload + CRC), 0 for other events.
+func serialFrameLen(e ardoptnc.Ev) int {
+	switch e.Kind {
+	case "arq", "fec", "idf", "err":
+		n := e.Size
+		if e.Arg != "" {
+			n = len(e.Arg)
+		}
+		if n < 0 {
+			n = 0
+		}
+		if n > 65532 {
+			n = 65532
+		}
+		return n + 9
+	case "dframe":
+		return len(e.Hex)/2 + 6
+	}
+	return 0
 }
